@@ -412,17 +412,20 @@ def exec_session(scn):
     # probe: which case of io_for_checking is taken (observed from outside, no source change)
     import sys as _sys
 
-    ct = _sys.modules["hdl21.elab.passes.conntypes"]
-
-    orig_io = ct.io_for_checking
+    ct = _sys.modules.get("hdl21.elab.passes.conntypes")
+    orig_io = getattr(ct, "io_for_checking", None)
 
     def probe_io(parent, i):
-        if isinstance(i, h.Module):
-            key = f"parent_flat={parent._pre_flattening_io is not None},child_flat={i._pre_flattening_io is not None}"
-            io_cases[key] = io_cases.get(key, 0) + 1
+        try:
+            if isinstance(i, h.Module):
+                key = f"parent_flat={parent._pre_flattening_io is not None},child_flat={i._pre_flattening_io is not None}"
+                io_cases[key] = io_cases.get(key, 0) + 1
+        except AttributeError:  # a coverage probe only: never in the way of the call
+            pass
         return orig_io(parent, i)
 
-    ct.io_for_checking = probe_io
+    if orig_io is not None:
+        ct.io_for_checking = probe_io
     for k, op in enumerate(scn["ops"]):
         kind = op[0]
         if kind == "expect_raise":
